@@ -1,6 +1,6 @@
 // Sanitizer driver for the native permanent kernels (C04, DESIGN 2.9).
 //
-//   perm_driver <vector file> [<first index>]
+//   perm_driver <vector file> [<first index> [<fork mode 0|1>]]
 //
 // vector file:  int32 count, then per vector
 //   int32 kernel   0 = permanent_cpp, 1 = permanent_laplace_cpp
@@ -85,6 +85,7 @@ int main(int argc, char **argv)
     driver_setup_streams();
     Reader rd(argv[1]);
     long first = argc > 2 ? atol(argv[2]) : 0;
+    bool fork_mode = argc > 3 && atoi(argv[3]) == 1;
     long count = rd.i32();
     for (long idx = 0; idx < count; idx++)
     {
@@ -99,11 +100,12 @@ int main(int argc, char **argv)
         if (idx < first)
             continue;
         g_forced_hw = (unsigned int)hw;
-        mark_begin(idx);
-        if (dtype == 0)
-            run_one<float>(idx, kernel, nrows, ncols, rows, cols, entries);
-        else
-            run_one<double>(idx, kernel, nrows, ncols, rows, cols, entries);
+        guarded(idx, fork_mode, [&]() {
+            if (dtype == 0)
+                run_one<float>(idx, kernel, nrows, ncols, rows, cols, entries);
+            else
+                run_one<double>(idx, kernel, nrows, ncols, rows, cols, entries);
+        });
     }
     printf("DONE %ld\n", count);
     return 0;
